@@ -361,6 +361,23 @@ func run(e *core.Env) {
 				if err != nil {
 					e.Infra("probe: %v", err)
 				}
+				if tp.Chance(1, 3) {
+					// A frame of any message type - also the end-to-end encrypted ones, with what a
+					// relay cannot tell from ciphertext as payload - and with an appendix: relays do
+					// not open it, they pass it on as it is (the destination will refuse it).
+					f.ReturnToPool()
+					mt := []frame.MessageType{frame.RouterCtrl, frame.NetworkTraffic, frame.SessionCtrl, frame.SessionData, frame.RouterPing, frame.RouterHopPing}[tp.Intn(6)]
+					payload := append(append([]byte(nil), tok...), tp.Bytes(tp.Intn(300))...)
+					var apx []byte
+					if tp.Chance(3, 4) {
+						apx = tp.Bytes(1 + tp.Intn(400))
+					}
+					f, err = A.Inst.Builder.NewFrameV1(A.IP, dst, mt, nil, payload, apx)
+					if err != nil {
+						e.Infra("typed frame: %v", err)
+					}
+					e.Probe("relayed_frame_of_any_type_with_appendix")
+				}
 				f.SetTTL(uint8(initTTL))
 				if err := A.Router.RouteFrame(f); err != nil {
 					f.ReturnToPool()
